@@ -6,6 +6,9 @@ CONSTANTS
   SkipSet = {}
   HdrSet = {}
   RefPolicy = "any"
+  MaskSet = {{"n", "w", "r"}}
+  TypeResets = TRUE
+  SkipUndecoded = TRUE
   FillOnly = FALSE
   BulkN = 9
   RoleLimit = 250
